@@ -15,6 +15,24 @@ CHECKS = {
             "DESIGN.md section 5 C06"),
 }
 
+CHECKS.update({
+    "C17": ("other",
+            "bounded enumeration of template/target pairs; per returned substitution one z3 validity query (value(template[S]) == value(target)) with uninterpreted function symbols",
+            "Bounded symbolic checking of the real match(): every returned substitution is proved (z3, all valuations, all function interpretations) to make the template equal to the target, to bind only declared free variables and to agree with pre_match; any exception other than the documented ValueError is a violation. Bounds: all depth<=1 pairs over a small alphabet x free subsets plus seeded random pairs (depth<=3) over sums, products, calls with keywords.",
+            "Trusted: z3, RefExpr (vf/refexpr.py). Family restricted to sums/products/calls as the property states; z3 'unknown' on non-linear products is counted undecided.",
+            "DESIGN.md section 5 C17"),
+    "C18": ("other",
+            "bounded enumeration of expressions x free-variable subsets; per case one z3 validity query (value equality after substituting hoisted assignments back) plus structural checks",
+            "Bounded symbolic checking of the real collapse_constants(): z3 proves for all valuations that the rewritten expression with hoisted assignments substituted back equals the original; hoisted right-hand sides mention no free variable; each new variable assigned once. Bounds: exhaustive small family + seeded random expressions of depth<=4 (thorough 5).",
+            "Trusted: z3, RefExpr. `/`, `**`, subscripts, functions uninterpreted; + and * exact (IEEE re-association outside the claim).",
+            "DESIGN.md section 5 C18"),
+    "C19": ("translation_validation",
+            "bounded enumeration of expressions; real str() then real parse(); string/variable equality concrete, value equality by z3 validity query; failures minimised and matched structurally against known findings",
+            "Round-trip validation: for each expression of the family the printed form is parsed back by the real parser; printed forms must be identical, variable sets equal, and z3 proves value equality whenever the re-read tree differs structurally. Three pymbolic-rooted printer defects are listed as known findings with structural matchers on minimised witnesses.",
+            "Trusted: z3, RefExpr, the delta-debugging minimiser. Min/Max nodes are outside the stated language and excluded.",
+            "DESIGN.md section 5 C19"),
+})
+
 NOT_APPLICABLE = {
 }
 
